@@ -204,6 +204,10 @@ def check_comparison(prog, chk, body, field, variant, bb, idx, stmt, limit_tmp):
         chk.bad("A7.pred", key + ":branch", where, "comparison result is not branched on directly")
         return
     true_t, false_t = R.switch_targets_bool(sw)
+    if op in ("Le", "Lt"):
+        # written the other way round (`if counter <= limit { go on } else fail`): the failing edge is the false one
+        op = {"Le": "Gt", "Lt": "Ge"}[op]
+        true_t, false_t = false_t, true_t
     region = R.reach_try_aware(body, [true_t])  # `Err(e)?` never continues
     ok_variant = R.constructs_variant(body, region, ERR, variant)
     ok_err = R.returns_err(body, region)
